@@ -222,7 +222,7 @@ pub fn run_qz(c: &Case) -> Obs {
 }
 
 /// cut `f` into blocks: sizes by style, with empty blocks sprinkled in
-fn cut_blocks(rng: &mut Rng, f: &[u8], line_offs: &[usize]) -> Vec<Vec<u8>> {
+pub fn cut_blocks(rng: &mut Rng, f: &[u8], line_offs: &[usize]) -> Vec<Vec<u8>> {
     let mut cuts: Vec<usize> = Vec::new();
     match rng.below(5) {
         0 => {
